@@ -292,6 +292,13 @@ func constCases(thorough bool) []Case {
 		add("array-len-shift/"+k, "", "var a [1 << "+k+"]byte\nprintln(len(a))")
 		add("make-shift/"+k, "", "a := make([]byte, 1 << "+k+")\nprintln(len(a))")
 	}
+	// constant len/cap of array composite literals: evaluated by a preprocess-time sub-machine
+	for _, k := range []string{"4", "10", "16", "20", "22", "24", "25", "26", "28", "30", "33", "40", "62"} {
+		add("array-literal-len/"+k, "const n = len([1 << "+k+"]int{})", "println(n)")
+		add("array-literal-len-struct/"+k, "", "println(len([1 << "+k+"]struct{ a, b int }{}))")
+		add("array-literal-cap-nested/"+k, "const n = cap([1 << "+k+"][2]byte{})", "println(n)")
+		add("array-literal-len-in-type/"+k, "var a [len([1 << "+k+"]byte{}) >> "+k+"]bool", "println(len(a))")
+	}
 	digits := []int{1, 10, 18, 19, 20, 38, 39, 40, 77, 78, 100, 154, 155, 1000, 10000, 100000}
 	if thorough {
 		digits = append(digits, 1000000)
